@@ -252,6 +252,9 @@ def run_indexes(ctx, n):
         ctx.corr("Serialize.readJoined(writeJoined)~read_db(write_db)", case, vd, model)
 
 
+from .c03 import entries_json  # noqa: E402
+
+
 def run_listing_with_meta(ctx, n):
     """a directory listing written with metadata parses back, given its hash name, to the same entries"""
     from dvc_data.hashfile.hash_info import HashInfo
@@ -259,6 +262,7 @@ def run_listing_with_meta(ctx, n):
     from dvc_data.hashfile.tree import Tree
 
     rng = ctx.rng
+    pending = []
     for _ in range(n):
         files = gen.rand_tree(rng, max_files=5)
         name = rng.choice(["md5", "md5", "md5-dos2unix", "etag", "checksum"])
@@ -285,6 +289,25 @@ def run_listing_with_meta(ctx, n):
 
         kind, v = safe_call(f)
         ctx.oracle(kind == "ok" and v == exp, case, {"why": "listing with metadata does not parse back to the same entries", "impl": v})
+        ents = [(k, (m, h)) for k, m, h in t]
+        kb, real_bytes = safe_call(lambda: t.as_bytes(with_meta=True).decode())
+        pending.append((case, name, entries_json(ents), kb, real_bytes, kind, v))
+    # the model's `asList true` / `fromList (some name)` against the real serialiser and parser (theorem listing_roundtrip)
+    mbs = ctx.driver.batch([{"op": "tree_bytes", "with_meta": True, "entries": p[2]} for p in pending])
+    for p, mb in zip(pending, mbs):
+        ctx.corr("Tree.asBytes(with_meta)~Tree.as_bytes", p[0], p[4] if p[3] == "ok" else {"err": p[4]}, mb.get("bytes"))
+    good = [p for p in pending if p[3] == "ok"]
+    mls = ctx.driver.batch([{"op": "tree_fromlist", "hash_name": p[1],
+                             "list": [[[kk, vv] for kk, vv in d.items()] for d in json.loads(p[4])]} for p in good])
+    for p, ml in zip(good, mls):
+        if "tree" in ml:
+            model = {"/".join(e["key"]): {"hash": [(e["hi"] or {}).get("name"), (e["hi"] or {}).get("value")],
+                                          "meta": {kk: vv for kk, vv in (e["meta"] or {}).items()
+                                                   if not (vv is None or vv is False or vv == "")}}
+                     for e in ml["tree"]}
+        else:
+            model = ml
+        ctx.corr("Tree.fromList(hash_name)~Tree.from_list", p[0], p[6] if p[5] == "ok" else {"err": p[6]}, model)
 
 
 def _md(m):
